@@ -291,6 +291,14 @@ def run_window(c, out):
                 ins = bool(np.all(p >= 0) and np.all(p < shape))
                 fill0 = (not ins) and r[tuple(bad)] == 0
                 out.fail("window:" + ("fill_value_not_volume_mean" if not ins else "voxel_not_from_requested_position") + ("_zero" if fill0 else ""), f"window voxel {bad.tolist()} (volume position {p.tolist()}): {r[tuple(bad)]!r} vs {exp[tuple(bad)]!r}")
+    if ok:
+        # two live arrays: a window that is edited in place must not take the volume (and with it every other window) along
+        vol0 = vol.copy()
+        ok2, r_edit = call(out, "extract_subvolume", lambda: cryomap.extract_subvolume(vol, ctr.copy(), sz))
+        if ok2:
+            _faults.scribble(r_edit)
+            if not out.check(np.array_equal(vol, vol0), "window:editing_the_returned_window_changed_the_volume", f"window:{where}"):
+                return out
     # the same window written to a file (single precision, same axis order) and the documented enforce_shape form
     # (result of the volume's shape: the part of the window inside the volume keeps its voxels, everything else the mean)
     if ok and c["seed"] % 3 == 0:
